@@ -20,4 +20,7 @@ Definition m_no_vml_outside (s : bytes) : bool := no_vml_outside Closed (lex s).
 Definition m_merge_check (a b : bytes) : bool :=
   let xs := lex a in let ys := lex b in merge_check (S (List.length xs + List.length ys)) xs ys.
 
-Extraction "model.ml" m_merge_check m_strip m_escamp m_entities m_wrap m_preprocess m_byte_to_nat m_lex m_check_std m_check_mso m_no_vml_outside.
+Definition m_std_texts (s : bytes) : option (list bytes) := view_texts Std (lex s).
+Definition m_mso_texts (s : bytes) : option (list bytes) := view_texts Mso (lex s).
+
+Extraction "model.ml" m_std_texts m_mso_texts m_merge_check m_strip m_escamp m_entities m_wrap m_preprocess m_byte_to_nat m_lex m_check_std m_check_mso m_no_vml_outside.
